@@ -84,6 +84,10 @@ func NewListener(cfg *service.Listener, stats *DownstreamStats, logger log.Logge
 }
 
 func (l *listener) Serve() error {
+	// NOTE: Stop waits for done, it must be closed on every return path,
+	// including the early ones when stopped or drained before listening.
+	defer close(l.done)
+
 	ip := l.cfg.GetAddress().GetIp()
 	port := l.cfg.GetAddress().GetPort()
 	address := fmt.Sprintf("%s:%d", ip, port)
@@ -125,7 +129,6 @@ func (l *listener) Serve() error {
 
 	l.connsWg.Wait()
 	l.Infof("all conns done")
-	close(l.done)
 	return nil
 }
 
